@@ -144,6 +144,8 @@ type vkList struct {
 type vkClient struct {
 	Name               string   `json:"name"`
 	IP                 string   `json:"ip"`
+	// CIDR, if set, identifies the client by a network instead of an address.
+	CIDR string `json:"cidr,omitempty"`
 	UseOwnSettings     bool     `json:"use_own_settings"`
 	FilteringEnabled   bool     `json:"filtering_enabled"`
 	UseOwnServices     bool     `json:"use_own_blocked_services"`
@@ -155,6 +157,9 @@ type vkClient struct {
 
 // vkConf is a whole generated server configuration.
 type vkConf struct {
+	// UseDNS64 and DNS64Prefixes are passed to ServerConfig (C06).
+	UseDNS64      bool
+	DNS64Prefixes []netip.Prefix
 	// EtcHosts, when not nil, is the hosts container of the filter (C06).
 	EtcHosts    hostsfile.Storage
 	Lists       []vkList
@@ -281,9 +286,18 @@ func vkWeeklyKind(pause, far bool) *schedule.Weekly {
 
 // vkPersistent builds the persistent client described by vc.
 func vkPersistent(vc vkClient) *client.Persistent {
+	var ips []netip.Addr
+	var nets []netip.Prefix
+	if vc.CIDR != "" {
+		nets = []netip.Prefix{netip.MustParsePrefix(vc.CIDR)}
+	} else {
+		ips = []netip.Addr{netip.MustParseAddr(vc.IP)}
+	}
+
 	return &client.Persistent{
 		Name:                  vc.Name,
-		IPs:                   []netip.Addr{netip.MustParseAddr(vc.IP)},
+		IPs:                   ips,
+		Subnets:               nets,
 		UID:                   client.MustNewUID(),
 		UseOwnSettings:        vc.UseOwnSettings,
 		FilteringEnabled:      vc.FilteringEnabled,
@@ -433,6 +447,8 @@ func vkStartOnce(c *vkConf) (vs *vkServer, err error) {
 		},
 		ConfigModified: func() {},
 		ServePlainDNS:  true,
+		UseDNS64:       c.UseDNS64,
+		DNS64Prefixes:  c.DNS64Prefixes,
 	}
 	if err = s.Prepare(sconf); err != nil {
 		f.Close()
